@@ -60,4 +60,9 @@ def Fmt5eMonotoneStatement : Prop :=
     ∀ qa ea qb eb, dec5e (fmt5e a) = some (false, qa, ea) → dec5e (fmt5e b) = some (false, qb, eb) →
       ea < eb ∨ (ea = eb ∧ qa ≤ qb)
 
+/-- sign symmetry: the text of a negative score is `-` followed by the text of its magnitude (CPython
+    formats sign and magnitude separately; a `-0.00000e+00` cannot arise from a non-zero `k/64`) -/
+def Fmt5eNegStatement : Prop :=
+  ∀ k : Int, 0 < k → fmt5e (-k) = 45 :: fmt5e k
+
 end Depccg.NumProps
